@@ -162,6 +162,99 @@ def app_trace(R, test_exe, runner, n):
     return res
 
 
+def lp_trace(R, test_exe, runner, nperm, nadv, sweep, corpus_dirs, tag, timeout=1500):
+    """Link-service harness (TestLpTrace) + two-phase replay on the extracted model.
+    Phase 1: runner lists the reassembled/inner payloads whose parse result it needs; TestClassify runs spec.ReadPacket on
+    them (Interest/Data parsing belongs to the codec family: it is an input of this model); phase 2: full comparison."""
+    trace = os.path.join(R.work, "lp-%s.trace" % tag)
+    corpus = os.path.join(R.work, "lpcorpus-%s" % tag)
+    os.makedirs(corpus, exist_ok=True)
+    for f in os.listdir(corpus):
+        os.remove(os.path.join(corpus, f))
+    for d in corpus_dirs:
+        if os.path.isdir(d):
+            for f in sorted(os.listdir(d)):
+                if f.endswith(".lpcase"):
+                    open(os.path.join(corpus, os.path.basename(d) + "-" + f), "w").write(open(os.path.join(d, f)).read())
+    env = vlib.goenv()
+    env.update(VERIF_SEED=str(R.seed), VERIF_N=str(nperm), VERIF_ADV=str(nadv), VERIF_SWEEP=sweep, VERIF_OUT=trace,
+               VERIF_CORPUS=corpus, VERIF_TIER=R.tier)
+    rc, out = vlib.sh([test_exe, "-test.run", "TestLpTrace$", "-test.count=1", "-test.timeout=%ds" % timeout], env=env, timeout=timeout + 60)
+    if rc != 0:
+        last = ""
+        try:
+            txt = open(trace, errors="replace").read()
+            i = txt.rfind("LPCASE ")
+            last = txt[i:i + 6000]
+        except OSError:
+            pass
+        R.oracle_failure("lp-harness-crash", "the Go link-service harness aborted (panic outside recover / fatal error such as out of memory)",
+                         dict(output=out[-1500:], last_case=last))
+        return None
+    need = os.path.join(R.work, "lp-%s.need" % tag)
+    table = os.path.join(R.work, "lp-%s.table" % tag)
+    rc, out1 = run_runner(runner, ["lp", "1", trace, "-", need], timeout=timeout)
+    if "DONE" not in out1:
+        R.proof_problems.append("lp runner (phase 1) did not finish: " + out1[-300:])
+        return None
+    env = vlib.goenv()
+    env.update(VERIF_IN=need, VERIF_OUT=table)
+    rc, out = vlib.sh([test_exe, "-test.run", "TestClassify$", "-test.count=1"], env=env, timeout=600)
+    if rc != 0:
+        R.oracle_failure("classify-crash", "spec.ReadPacket crashed the harness on a reassembled payload", dict(output=out[-1500:]))
+        return None
+    rc, out = run_runner(runner, ["lp", "1", trace, table], timeout=timeout)
+    res = dict(cases=0, nontrivial=set(), kinds={}, samples=[], ops=0)
+    if "DONE" not in out:
+        R.proof_problems.append("lp runner did not finish: " + out[-300:])
+    cases = load_lp_cases(trace)
+    seen_div = set()
+    for l in out.split("\n"):
+        f = l.split(" ")
+        if f[0] == "CASEOK":
+            res["cases"] += 1
+            res["kinds"][f[2]] = res["kinds"].get(f[2], 0) + 1
+            kv = dict(x.split("=", 1) for x in f[3:] if "=" in x)
+            res["ops"] += int(kv.get("ops", "0"))
+            if kv.get("nontrivial") == "1":
+                res["nontrivial"].add(kv.get("hash"))
+            if len(res["samples"]) < 2 or (f[2] not in [x.split(" ")[1] for x in res["samples"]] and len(res["samples"]) < 4):
+                res["samples"].append(" ".join(f[1:7]))
+        elif f[0] == "DIVERGE":
+            if f[1] not in seen_div:
+                seen_div.add(f[1])
+                res["cases"] += 1
+            R.divergence("link service: model and implementation disagree on case %s: %s" % (f[1], " ".join(f[2:])[:400]),
+                         dict(case=cases.get(f[1], "")[:8000], detail=l[:800], harness="TestLpTrace (VERIF_OPS=<file with the LPCASE/SEND/RECV lines>)"))
+        elif f[0] == "ORACLE":
+            sig = f[2] + ":" + lp_case_kind(cases.get(f[1], ""))
+            R.oracle_failure(sig, " ".join(f[3:]), dict(case_id=f[1], case=shrink_for_replay(cases.get(f[1], "")),
+                                                        harness="VERIF_OPS=<file with these LPCASE/SEND/RECV lines> facelp.test -test.run TestLpTrace"))
+        elif f[0] in ("BADLINE", "NEEDMISSING"):
+            R.proof_problems.append("lp runner: " + l[:200])
+    return res
+
+
+def load_lp_cases(trace):
+    cases, cur, cid = {}, [], None
+    for line in open(trace, errors="replace"):
+        if line.startswith("LPCASE "):
+            if cid is not None:
+                cases[cid] = "".join(cur)
+            cid = line.split()[1]
+            cur = [line]
+        elif cid is not None and line.startswith(("SEND", "RECV")):
+            cur.append(line)
+    if cid is not None:
+        cases[cid] = "".join(cur)
+    return cases
+
+
+def lp_case_kind(case):
+    m = re.match(r"LPCASE \S+ (\S+)", case)
+    return m.group(1) if m else "?"
+
+
 def load_cases(trace):
     cases, cur, cid = {}, [], None
     for line in open(trace, errors="replace"):
@@ -200,6 +293,17 @@ def part(R):
     if res:
         R.coverage.setdefault("distribution", {})["stream_adversarial"] = res["kinds"]
         R.add_cases(res["cases"], len(res["nontrivial"]), res["samples"])
+    nadv = 150 if R.quick else 6000
+    lp = lp_trace(R, test_exe, runner, 0, nadv, "", [os.path.join(vlib.VERIF, "corpus", "C04_face")], "adv")
+    if lp:
+        R.coverage.setdefault("distribution", {})["frame_sequences"] = dict(cases=lp["kinds"], frames_fed=lp["ops"])
+        R.add_cases(lp["cases"], len(lp["nontrivial"]), lp["samples"])
+    rule = ("stream: one evaluation = one adversarial byte stream (huge/overflowing lengths, oversize blocks, exact buffer fill, non-minimal forms, random "
+            "and TL-biased bytes, truncation) under one read schedule; frames: one evaluation = one sequence of 4..27 frames fed to a real NDNLPLinkService "
+            "(arbitrary FragIndex/FragCount/Sequence incl. 2^32, 2^63, 2^64-1, index >= count, count changes for a live sequence, duplicates, sequence wrap, "
+            "6-byte PIT tokens naming thread = count, bit-flipped / truncated / extended valid frames, nested LpPackets, IDLE frames, random bytes); "
+            "non-trivial = at least 3 frames and (a delivery or at least 8 frames); distinct by MD5 of the canonical case")
+    R.coverage["rule"] = (R.coverage.get("rule", "") + " | receive path: " + rule).strip(" |")
 
 
 def run(R):
